@@ -446,6 +446,13 @@ func ruleC15Client(c *Ctx) {
 			}
 		})
 		c.Guard(rule, fn, sends, "enqueue request", nil, atom("client not poisoned", isNilAtom("$0.err")))
+		// an error reply (and a request terminated by replyError, which turns it into one) is a failure:
+		// success is reported only when the type of the *reply* is not TypeError
+		if te, ok := c.P.pkgIntConst("rpc", "TypeError"); ok {
+			c.Guard(rule, fn, nilErrorReturns(fn), "report success", nil, atom("reply is not an error reply", fmt.Sprintf("+var(rpc.Message).Type -%d !=0", te)))
+		} else {
+			c.Undecided(rule, FnName(fn)+" | TypeError", "", "constant rpc.TypeError not found")
+		}
 		if len(sels) == 1 {
 			sel := sels[0].(*ssa.Select)
 			hasDeadline, hasComplete := false, false
